@@ -89,6 +89,33 @@ type IntLists struct {
 	End int32
 }
 
+// PtrContainers holds a map and a slice directly and behind pointers (the pointer-held ones may be the very
+// same map / backing array as the direct ones).
+type PtrContainers struct {
+	M   map[string]int32
+	PM  *map[string]int32
+	L   []int32
+	PL  *[]int32
+	PT  *time.Time
+	End int32
+}
+
+// SmallIntLists: slices over small integer kinds none of which also occurs as a scalar field.
+type SmallIntLists struct {
+	A []int8
+	B []int16
+	C []uint16
+}
+
+// CustomNode is a custom-named struct that refers to itself.
+type CustomNode struct {
+	V    int32
+	Next *CustomNode
+	Kids []*CustomNode
+}
+
+func (CustomNode) HessianCodecName() string { return "com.example.CustomNode" }
+
 // CustomSet is a named slice type with its own wire name (the java.util.HashSet idiom).
 type CustomSet []int32
 
@@ -390,7 +417,7 @@ var Types = []T{
 	{"time", ty(time.Time{}), true},
 	{"Inner", ty(Inner{}), true}, {"*Inner", ty(&Inner{}), true}, {"CustomNamed", ty(CustomNamed{}), true},
 	{"Scalars", ty(Scalars{}), false}, {"Acronyms", ty(Acronyms{}), true}, {"TypeTable", ty(TypeTable{}), true}, {"TimeThenPtrs", ty(TimeThenPtrs{}), true},
-	{"*HeaderFirst", ty(&HeaderFirst{}), true}, {"*Nested", ty(&Nested{}), true}, {"IntLists", ty(IntLists{}), true}, {"SlNamedMapL", ty(SlNamedMapL{}), true}, {"MpStrCustom", ty(MpStrCustom{}), true}, {"SlCustomSet", ty(SlCustomSet{}), true}, {"topCustomSet", ty(CustomSet(nil)), true}, {"Embedded", ty(Embedded{}), true}, {"EmbeddedPtr", ty(EmbeddedPtr{}), true}, {"Nested", ty(Nested{}), true}, {"Ptrs", ty(Ptrs{}), true},
+	{"*HeaderFirst", ty(&HeaderFirst{}), true}, {"*Nested", ty(&Nested{}), true}, {"IntLists", ty(IntLists{}), true}, {"SmallIntLists", ty(SmallIntLists{}), true}, {"PtrContainers", ty(PtrContainers{}), true}, {"*CustomNode", ty(&CustomNode{}), true}, {"SlNamedMapL", ty(SlNamedMapL{}), true}, {"MpStrCustom", ty(MpStrCustom{}), true}, {"SlCustomSet", ty(SlCustomSet{}), true}, {"topCustomSet", ty(CustomSet(nil)), true}, {"Embedded", ty(Embedded{}), true}, {"EmbeddedPtr", ty(EmbeddedPtr{}), true}, {"Nested", ty(Nested{}), true}, {"Ptrs", ty(Ptrs{}), true},
 	{"SlBool", ty(SlBool{}), true}, {"SlI8", ty(SlI8{}), true}, {"SlI16", ty(SlI16{}), true}, {"SlI32", ty(SlI32{}), true}, {"SlI", ty(SlI{}), true}, {"SlI64", ty(SlI64{}), true},
 	{"SlU16", ty(SlU16{}), true}, {"SlU32", ty(SlU32{}), true}, {"SlU", ty(SlU{}), true}, {"SlU64", ty(SlU64{}), true}, {"SlF32", ty(SlF32{}), true}, {"SlF64", ty(SlF64{}), true},
 	{"SlStr", ty(SlStr{}), true}, {"SlBin", ty(SlBin{}), true}, {"SlTime", ty(SlTime{}), true}, {"SlInner", ty(SlInner{}), true}, {"SlPInner", ty(SlPInner{}), true},
